@@ -213,9 +213,8 @@ def jumpTo (env : Env) (dest : W) (s : St) (rest : List W) : Except Halt St :=
   else if validJumpdest env.jumpdest dest.toNat then .ok { s with stack := rest, pc := dest.toNat + 1 }
   else .error .badJumpdest
 
-/-- one instruction at `s.pc < env.code.size` -/
-def step (env : Env) (s : St) : Except Halt St :=
-  let op := (env.code.getD s.pc 0).toNat
+/-- every opcode outside PUSH0–32 / DUP1–16 / SWAP1–16 -/
+def stepOther (env : Env) (s : St) (op : Nat) : Except Halt St :=
   match op with
   | 0x00 => .ok { s with output := some (.ret, #[]), pc := env.code.size }
   | 0x01 => binop addImpl s
@@ -392,24 +391,34 @@ def step (env : Env) (s : St) : Except Halt St :=
           | .ok m => .ok { s with stack := 1#256 :: rest, memory := m, returnData := input, pc := s.pc + 1 }
     | _ => .error .stackUnderflow
   | _ =>
-    if 0x5f ≤ op ∧ op ≤ 0x7f then
-      -- PUSH0 … PUSH32: `pc += 1; pc += push::<n>(stack, &code[pc..])?`
-      let n := op - 0x5f
-      match pushChecked (pushImm env.code s.pc n) s.stack with
-      | .error e => .error e
-      | .ok st => .ok { s with stack := st, pc := s.pc + 1 + n }
-    else if 0x80 ≤ op ∧ op ≤ 0x8f then
-      match dupN (op - 0x7f) s.stack with
-      | .error e => .error e
-      | .ok st => .ok { s with stack := st, pc := s.pc + 1 }
-    else if 0x90 ≤ op ∧ op ≤ 0x9f then
-      match swapN (op - 0x8f) s.stack with
-      | .error e => .error e
-      | .ok st => .ok { s with stack := st, pc := s.pc + 1 }
-    else if (0x30 ≤ op ∧ op ≤ 0x34) ∨ (0x3a ≤ op ∧ op ≤ 0x3c) ∨ (0x3f ≤ op ∧ op ≤ 0x48) ∨ op = 0x5a
+    if (0x30 ≤ op ∧ op ≤ 0x34) ∨ (0x3a ≤ op ∧ op ≤ 0x3c) ∨ (0x3f ≤ op ∧ op ≤ 0x48) ∨ op = 0x5a
         ∨ (0xa0 ≤ op ∧ op ≤ 0xa4) ∨ op = 0xf0 ∨ op = 0xf1 ∨ op = 0xf4 ∨ op = 0xf5 ∨ op = 0xff then
       .error (.unsupported op)
     else .error .undefinedInstruction
+
+/-- PUSHn: `pc += 1; pc += push::<n>(stack, &code[pc..])?` (checked push) -/
+def stepPush (env : Env) (s : St) (n : Nat) : Except Halt St :=
+  match pushChecked (pushImm env.code s.pc n) s.stack with
+  | .error e => .error e
+  | .ok st => .ok { s with stack := st, pc := s.pc + 1 + n }
+
+def stepDup (s : St) (n : Nat) : Except Halt St :=
+  match dupN n s.stack with
+  | .error e => .error e
+  | .ok st => .ok { s with stack := st, pc := s.pc + 1 }
+
+def stepSwap (s : St) (n : Nat) : Except Halt St :=
+  match swapN n s.stack with
+  | .error e => .error e
+  | .ok st => .ok { s with stack := st, pc := s.pc + 1 }
+
+/-- one instruction at `s.pc < env.code.size` -/
+def step (env : Env) (s : St) : Except Halt St :=
+  let op := (env.code.getD s.pc 0).toNat
+  if 0x5f ≤ op ∧ op ≤ 0x7f then stepPush env s (op - 0x5f)
+  else if 0x80 ≤ op ∧ op ≤ 0x8f then stepDup s (op - 0x7f)
+  else if 0x90 ≤ op ∧ op ≤ 0x9f then stepSwap s (op - 0x8f)
+  else stepOther env s op
 
 /-- `Machine::execute`: `while pc < code.len() { step }`, then the output (default: Return, empty) -/
 def run (env : Env) : Nat → St → Except Halt St
